@@ -834,29 +834,37 @@ def s_decl(t, name, pool):
 
 def sig_c(k, sg, pool):
     ps = [s_decl(p, "a%d" % i, pool) for i, p in enumerate(sg["params"])]
-    plist = ", ".join(ps + (["..."] if sg["variadic"] else [])) or "void"
+    plist = ", ".join(ps + (["..."] if sg["variadic"] else [])) or "void"       # C23: `T f(...)` has no named parameter
     rt = sg["ret"]
     if sg["kind"] == "def":
         if rt is None:
             return "void f%d(%s) { }\n" % (k, plist)
         return "extern %s;\n%s(%s) { return r%d; }\n" % (s_decl(rt, "r%d" % k, pool), s_decl(rt, "f%d" % k, pool), plist, k)
     if sg["kind"] == "vadef":
-        body = "__builtin_va_list ap; __builtin_va_start(ap, a%d); " % (len(ps) - 1)
+        # C23: `int h(...)` and `va_start(ap)` without a second argument
+        body = "__builtin_va_list ap; __builtin_va_start(ap%s); " % (", a%d" % (len(ps) - 1) if ps else "")
         for i, v in enumerate(sg["vaargs"]):
             body += "%s = __builtin_va_arg(ap, %s); " % (s_decl(I(v), "x%d" % i, pool), s_decl(I(v), "", pool).strip())
-        body += "__builtin_va_end(ap); return a0;"
+        body += "__builtin_va_end(ap); return 0;"
         return "int h%d(%s) { %s }\n" % (k, plist, body)
-    out = "%s(%s);\n" % (s_decl(rt, "g%d" % k, pool) if rt is not None else "void g%d" % k, plist)
+    if sg["kind"] == "pcall":
+        # call through a pointer to function: the callee is a value, only the function type is known
+        name = "(*p%d)(%s)" % (k, plist)
+        out = "extern %s;\n" % (s_decl(rt, name, pool) if rt is not None else "void " + name)
+        callee = "p%d" % k
+    else:
+        out = "%s(%s);\n" % (s_decl(rt, "g%d" % k, pool) if rt is not None else "void g%d" % k, plist)
+        callee = "g%d" % k
     for i, a in enumerate(sg["args"]):
         out += "extern %s;\n" % s_decl(a, "b%d_%d" % (k, i), pool)
-    out += "void c%d(void) { g%d(%s); }\n" % (k, k, ", ".join("b%d_%d" % (k, i) for i in range(len(sg["args"]))))
+    out += "void c%d(void) { %s(%s); }\n" % (k, callee, ", ".join("b%d_%d" % (k, i) for i in range(len(sg["args"]))))
     return out
 
 
 def sig_drv(tg, sg, pool):
     head = "%s %d %s" % (tg, 1 if sg["variadic"] else 0,
                          " ; ".join([s_drv(sg["ret"], pool) if sg["ret"] is not None else "void"] + [s_drv(p, pool) for p in sg["params"]]))
-    if sg["kind"] == "call":
+    if sg["kind"] in ("call", "pcall"):
         return ["call " + head + " | " + " ; ".join(s_drv(a, pool) for a in sg["args"])]
     if sg["kind"] == "vadef":
         return ["func " + head] + ["vaarg %s %s" % (tg, DRV_SC[v]) for v in sg["vaargs"]]
@@ -899,21 +907,20 @@ class SGen:
     def sig(self, kind):
         r = self.rng
         n = r.choice([0, 1, 2, 3, 4, 5, 6, 8, 10, 12])
-        variadic = r.random() < (0.45 if kind == "call" else 0.25)
+        variadic = r.random() < (0.45 if kind in ("call", "pcall") else 0.25)
         if kind == "vadef":
             variadic = True
-            n = r.randint(1, 3)
-        if variadic and n == 0:
-            n = 1
+            n = r.randint(0, 3)
+        if variadic and r.random() < 0.25:
+            n = 0                      # C23 6.7.6.3: `T f(...)`, a variadic type without named parameters
         params = [self.ptype() for _ in range(n)]
         sg = {"kind": kind, "ret": self.rtype(), "params": params, "variadic": variadic, "args": None, "vaargs": None}
         if kind == "vadef":
             sg["ret"] = I("int")
-            params[0] = I("int")
-            if params[-1][0] != "sc" or params[-1][1] in ("valist",):
+            if params and (params[-1][0] != "sc" or params[-1][1] in ("valist",)):
                 params[-1] = I(r.choice(["int", "long", "double", "voidp"]))
             sg["vaargs"] = [r.choice(VAARG_TYPES) for _ in range(r.randint(0, 4))]
-        if kind == "call":
+        if kind in ("call", "pcall"):
             args = [self.arg_for(p) for p in params]
             if variadic:
                 for _ in range(r.choice([0, 0, 1, 2, 3, 5])):
@@ -923,7 +930,7 @@ class SGen:
 
 
 FUNC_RE = re.compile(r"^function (?:(\S+) )?\$(\w+)\((.*)\) \{$")
-CALL_RE = re.compile(r"^\t(?:%\S+ =(\S+) )?call \$(\w+)\((.*)\)$")
+CALL_RE = re.compile(r"^\t(?:%\S+ =(\S+) )?call (\S+?)\((.*)\)$")
 VAARG_RE = re.compile(r"^\t%\S+ =(\S+) vaarg ")
 
 
@@ -946,7 +953,8 @@ def parse_module_sigs(text):
         m = FUNC_RE.match(ln)
         if m:
             ps = [p.strip() for p in m.group(3).split(",")] if m.group(3).strip() else []
-            cur = {"ret": m.group(1), "params": ["..." if p == "..." else p.split()[0] for p in ps], "vaargs": [], "vastart": 0}
+            cur = {"ret": m.group(1), "params": ["..." if p == "..." else p.split()[0] for p in ps], "vaargs": [], "vastart": 0,
+                   "calls": []}
             funcs[m.group(2)] = cur
             continue
         if ln == "}":
@@ -955,7 +963,10 @@ def parse_module_sigs(text):
         m = CALL_RE.match(ln)
         if m:
             args = [a.strip() for a in m.group(3).split(",")] if m.group(3).strip() else []
-            calls[m.group(2)] = (m.group(1), ["..." if a == "..." else a.split()[0] for a in args])
+            one = (m.group(1), ["..." if a == "..." else a.split()[0] for a in args])
+            calls[m.group(2).lstrip("$")] = one
+            if cur is not None:
+                cur["calls"].append(one)
             continue
         if cur is not None:
             m = VAARG_RE.match(ln)
@@ -1036,8 +1047,12 @@ def sig_batch(job):
         for k, sg in job["sigs"]:
             a, n = index[(k, tg)]
             counts["sig-evaluations"] = counts.get("sig-evaluations", 0) + 1
-            if sg["kind"] == "call":
-                got = calls.get("g%d" % k)
+            if sg["kind"] in ("call", "pcall"):
+                # the one call instruction of c<k> (its callee is $g<k>, or a temporary loaded from $p<k>)
+                cs_ = funcs.get("c%d" % k, {}).get("calls", [])
+                got = cs_[0] if len(cs_) == 1 else None
+                if sg["kind"] == "call" and calls.get("g%d" % k) != got:
+                    got = None
                 real = None if got is None else [real_cls(got[0], defs)] + [x if x == "..." else real_cls(x, defs) for x in got[1]]
             else:
                 got = funcs.get(("f%d" if sg["kind"] == "def" else "h%d") % k)
@@ -1066,10 +1081,6 @@ def sig_batch(job):
 def sig_variants(sg):
     n = len(sg["params"])
     for i in range(n):
-        if sg["kind"] == "vadef" and (i == 0 or n == 1):
-            continue
-        if sg["variadic"] and n == 1:
-            continue
         v = dict(sg, params=sg["params"][:i] + sg["params"][i + 1:])
         if sg["args"] is not None:
             v["args"] = sg["args"][:i] + sg["args"][i + 1:]
@@ -1157,7 +1168,7 @@ def handle_sig_event(ck, cproc, sg, pool, ev):
     kind = best["kind"]
     if kind == "sig-notok" or (kind == "sig-diff" and best["detail"].get("not_ok")):
         rp["what"] = ("the emitted %s does not carry the classes the C declaration demands: %s"
-                      % ("call" if sg["kind"] == "call" else "function signature", "; ".join(best["detail"]["not_ok"])))
+                      % ("call" if sg["kind"] in ("call", "pcall") else "function signature", "; ".join(best["detail"]["not_ok"])))
         ck.violation(rp)
     elif kind == "sig-diff":
         rp["what"] = "emitfunc/funcexpr(EXPRCALL)/emitinst and Model/AbiDesc.lean disagree although the classes are what the C declaration demands"
@@ -1215,6 +1226,13 @@ CORPUS_SIGS = [
     {"kind": "call", "ret": None, "params": [I("valist"), I("int")], "variadic": False, "args": [I("valist"), I("int")], "vaargs": None},
     {"kind": "vadef", "ret": I("int"), "params": [I("int")], "variadic": True, "args": None, "vaargs": ["int", "double", "voidp", "ulong"]},
     {"kind": "def", "ret": I("double"), "params": [I("int")] * 12, "variadic": True, "args": None, "vaargs": None},
+    # C23 variadic types without a named parameter: definition, va_start(ap), direct call, call through a pointer
+    {"kind": "vadef", "ret": I("int"), "params": [], "variadic": True, "args": None, "vaargs": ["double", "int"]},
+    {"kind": "def", "ret": None, "params": [], "variadic": True, "args": None, "vaargs": None},
+    {"kind": "call", "ret": I("int"), "params": [], "variadic": True, "args": [I("charpp"), I("double")], "vaargs": None},
+    {"kind": "pcall", "ret": None, "params": [], "variadic": True, "args": [I("float"), I("short")], "vaargs": None},
+    {"kind": "pcall", "ret": I("long"), "params": [I("int")], "variadic": True, "args": [I("int")], "vaargs": None},
+    {"kind": "pcall", "ret": None, "params": [I("uchar"), I("double")], "variadic": False, "args": [I("int"), I("float")], "vaargs": None},
 ]
 
 
@@ -1366,7 +1384,7 @@ def run(ck):
     if not ck.violations:
         sg = SGen(rng, sorted(pool))
         n_sig = 1000 if quick else 36000
-        sigs = [sg.sig(rng.choice(["def", "def", "call", "call", "call", "vadef"])) for _ in range(n_sig)]
+        sigs = [sg.sig(rng.choice(["def", "def", "call", "call", "call", "pcall", "vadef"])) for _ in range(n_sig)]
         for s in sigs:
             sig_hist(s, shist)
             ck.count(c06.key64(repr(s)))
